@@ -100,7 +100,7 @@ def gen_case(rng, tier, index):
                 # short write while the url SCM copies the file (disk full / quota / I/O error)
                 a.clear()
                 a.update({"kind": "copy-fault", "jobs": jobs, "sched_seed": rng.getrandbits(32), "nth": rng.choice([1, 1, 2]),
-                          "frac": rng.choice([0, 0.3, 0.5, 0.9]), "errno": rng.choice(["ENOSPC", "EDQUOT", "EIO"])})
+                          "frac": rng.choice([0, 0.3, 0.5, 0.9]), "errno": rng.choice(["ENOSPC", "EDQUOT", "EIO", "KILL"])})
     post = []
     if pre and rng.random() < 0.6:
         # after the aborted runs the user reverts the edit (or edits again)
@@ -162,6 +162,24 @@ def _final_check(proj, model, oracle, case, stats, log, tag):
     res = buildsim.results_of(proj, buildsim.dist_map(proj, True))
     diffs = buildsim.compare(res, clean["results"])
     if diffs:
+        # classification for known_findings.json: temporary directory of a url SCM fetch that was
+        # interrupted by a kill, still lying in a source workspace; it is the only cause if the results
+        # equal the clean build once it is removed
+        import re
+        stray = []
+        for root_, dirs_, _f in os.walk(os.path.join(proj, "dev", "src")):
+            for d_ in dirs_:
+                if re.fullmatch(r"tmp[a-z0-9_]{8}", d_) and "/workspace" in root_ + "/":
+                    stray.append(os.path.join(root_, d_))
+        if stray and case.get("_killed_inside_copy"):
+            for d_ in stray:
+                common.rmtree(d_)
+            rr = buildsim.bob(proj, ["dev", "root"], {"sched_seed": case["final_seed"] ^ 9})
+            if rr.rc == 0 and not buildsim.compare(buildsim.results_of(proj, buildsim.dist_map(proj, True)), clean["results"]):
+                return {"kind": "result-poisoned-by-abort",
+                        "detail": "%s: temporary directory of a url SCM fetch interrupted by a kill stays in the source workspace (%s) and "
+                                  "is handed to the build step; results equal the clean build once it is removed; %s" % (
+                                      tag, [os.path.relpath(x, proj) for x in sorted(stray)], diffs)}, len(ran)
         return {"kind": "result-poisoned-by-abort", "detail": "%s: %s" % (tag, diffs)}, len(ran)
     r2 = buildsim.bob(proj, ["dev", "root"], {"sched_seed": case["final_seed"] ^ 5})
     det = {}
@@ -244,6 +262,9 @@ def run_case(case):
                 finally:
                     if os.path.isdir(up + ".unreachable"):
                         os.rename(up + ".unreachable", up)
+                if a["kind"] == "copy-fault" and a.get("errno") == "KILL" and r.killed:
+                    stats.inc("fault_bob_killed_inside_scm_copy")
+                    case["_killed_inside_copy"] = True
                 fired = (r.killed or any(e[0] in ("script-fault-fired", "SIGINT", "copy-fault-fired") for e in r.events)
                          or (a["kind"] == "scm-fail" and r.rc != 0))
                 log.append(("abort", i, a["kind"], r.rc, fired, [e[2] for e in r.events if e[0] == "KILL"]))
@@ -339,6 +360,10 @@ def _directed_url(tier):
         out.append({"model": model, "pre": [{"edit": e}], "post": post, "good_first": True, "aborts": [a] * (1 + i % 2),
                     "final_jobs": 1, "final_seed": rng.getrandbits(32),
                     "directed": "SCM-only checkout moves to a new release, fetch fails, re-invocation"})
+    if out:
+        # Bob killed while the url SCM copies the file (temporary data of the fetch stays behind)
+        out.append(dict(out[0], aborts=[{"kind": "copy-fault", "jobs": 1, "sched_seed": 11, "nth": 1, "frac": 0.5, "errno": "KILL"}], post=[],
+                        directed="SCM-only checkout moves to a new release, Bob killed inside the copy of the fetched file"))
     # every kill point of the invocation that switches the url SCM
     if out:
         c = dict(out[0], aborts=[{"kind": "bob-kill", "jobs": 1, "sched_seed": 7, "point": 1}], enumerate=True,
